@@ -125,7 +125,9 @@ def run(chk: common.Check, tier: str):
     # ---- correspondence + the property on the implementation
     r = common.rng("c13")
     texts = list(planted())
-    kn = gramgen.Knobs(terminals=("NAME", "NUMBER", "'+'", "','", "NAMEE", "undefined_rule", "NEWLINE"), p_ref=0.4)
+    # actions are out of scope here: an action is arbitrary user Python and may name anything
+    kn = gramgen.Knobs(terminals=("NAME", "NUMBER", "'+'", "','", "NAMEE", "undefined_rule", "NEWLINE"), p_ref=0.4,
+                       actions=False)
     for t in gramgen.gen_grammars(r, kn, 150 if tier == "quick" else 1500):
         texts.append((t, ("random", None, "random")))
     if tier == "quick":
